@@ -141,6 +141,7 @@ pub fn digest(sess: &Sess, probes: &ProbeSet, ans_hint: bool, reimport: &[String
         let is_unit = names.units.iter().any(|u| u.split('|').any(|x| x == n));
         if is_fn || is_dim || is_unit {
             let ctx = &mut c.ctx;
+            crate::sess::hook_idle();
             let r = crate::sess::trap(|| ctx.print_info_for_keyword(n).to_string());
             match r {
                 Ok(s) => out.push(format!("info {n}: {}", s.replace('\n', " ⏎ "))),
